@@ -61,7 +61,7 @@ def loci_names(tier):
     return ["L1", "L5", "L3"] if tier == "quick" else ["L1", "L5", "L2", "L3", "L4"]
 
 
-def run_prog(D, prog, samples, seed, bed, hv, report=("AFP", "ACP", "AOP", "SNVDP"), bams=None, extra=()):
+def run_prog(D, prog, samples, seed, bed, hv, report=("AFP", "ACP", "AOP", "SNVDP", "GL", "GP"), bams=None, extra=()):
     ex = list(extra)
     if prog in ("assemble", "call"):
         ex += ["--mcmc-seed", str(seed)]
@@ -103,6 +103,23 @@ def compare_assemble(r, payload, tag, alone, together):
                     ok = False
         if not ok or len(rest) != sum(1 for h in ga if h is None):
             r.violation("assemble-gt", "locus %s: called haplotypes alone %r, with other samples %r (%s)" % (lid, ga, gt, tag), payload)
+        # G-length fields: the value of a genotype made of haplotypes listed in both runs must be the same
+        for f in ("GL", "GP"):
+            if f in da and f in dt and da[f] != "." and dt[f] != ".":
+                P = len(ga)
+                Ga = sorted(itertools.combinations_with_replacement(range(len(alleles_a)), P), key=lambda t: t[::-1])
+                Gt = sorted(itertools.combinations_with_replacement(range(len(alleles_t)), P), key=lambda t: t[::-1])
+                va_, vt_ = da[f].split(","), dt[f].split(",")
+                if len(va_) != len(Ga) or len(vt_) != len(Gt):
+                    r.violation("assemble-%s-length" % f, "locus %s: %s has %d / %d values for %d / %d genotypes (%s)" % (lid, f, len(va_), len(vt_), len(Ga), len(Gt), tag), payload)
+                    continue
+                pos_t = {tuple(sorted(alleles_t[i] for i in g)): k for k, g in enumerate(Gt)}
+                masked_t = "0" not in vcfparse.gt_alleles(dt["GT"]) and False
+                for k, g in enumerate(Ga):
+                    key = tuple(sorted(alleles_a[i] for i in g))
+                    if key in pos_t and f == "GL" and va_[k] != vt_[pos_t[key]]:
+                        r.violation("assemble-GL", "locus %s: GL of genotype %r is %s alone and %s with other samples (%s)" % (lid, key, va_[k], vt_[pos_t[key]], tag), payload)
+                        break
         # per-haplotype posterior statistics for haplotypes listed in both
         for f in ("AFP", "ACP", "AOP"):
             if f in da and f in dt and da[f] != "." and dt[f] != ".":
@@ -249,9 +266,10 @@ def job_pools(job):
             continue
         pf = os.path.join(D.dir, "pools_%d.txt" % ai)
         with open(pf, "w") as f:
-            for pn in ("PA", "PB"):
-                for s in pools[pn]:
-                    f.write("%s\t%s\n" % (s, pn))
+            # listed sample by sample (so the lines of one pool are not contiguous) for even assignments, pool by pool for odd ones
+            pairs = [(s, pn) for s in SAMPLES for pn in ("PA", "PB") if s in pools[pn]] if ai % 2 == 0 else [(s, pn) for pn in ("PA", "PB") for s in pools[pn]]
+            for s, pn in pairs:
+                f.write("%s\t%s\n" % (s, pn))
         tag = "%s|seed=%d|pools=%s" % (prog, seed, pools)
         try:
             hdr, samples, recs = run_prog(D, prog, SAMPLES, seed, bed, hv, extra=["--ploidy", "4", "--sample-pool", pf])
